@@ -182,7 +182,8 @@ def check(case):
         problem.step_implicit(m, phi, P, dt)
         new = np.asarray(phi.value, float).ravel()
         bound = 1.2 * dt * np.abs(r0).max()
-        slack = 1e-12 * (np.abs(old).max() + np.abs(new).max())
+        # rounding: relative to the values and to the (possibly cancelling) constituents of dt*(A old - s)/alpha
+        slack = 1e-12 * (np.abs(old).max() + np.abs(new).max()) + 1e-12 * dt * float(((np.abs(Ae) @ np.abs(old) + sabs) / alpha).max())
         if np.abs(new - old).max() > bound + slack:
             res.fail(f"small-dt:{tag}", f"||new-old|| = {np.abs(new - old).max():.3e} exceeds 1.2*dt*||alpha^-1 (A old - s)|| = {bound:.3e} "
                      f"for theta={theta:.2e} ({tag})", float(np.abs(new - old).max() / (bound + 1e-300)))
